@@ -3,6 +3,7 @@ package main
 import (
 	"fmt"
 	"math/rand"
+	"runtime"
 	"sort"
 	"strconv"
 	"strings"
@@ -30,7 +31,12 @@ import (
 //   scripted per routine run (run k uses the k-th triple; beyond the script Done()=true).
 //   Observation: D<b> I<id>:<b> U<b> R<maxChunks>:<num>:<size> ... E
 //
-// Peer leecher with the real ticker:  T <parallel> <nruns> (<done> <susp> <mask>)* ; c <id> ; w ; ...
+// Peer leecher with the real ticker:  T <parallel> <nruns> (<done> <susp> <mask>)* ; c <id> ; w ; x ; ...
+//   x = Terminate() called by the harness goroutine; the token X is logged when it has returned.
+//   A Done() that answers true takes 1.2ms, so that the ticker has fired when the loop comes
+//   back to select: on a tree without the d.done guard in routine() the terminated leecher then
+//   runs routine() again with probability 1/2; the history is repeated up to 6 times and the
+//   first log with a callback after D1 is reported.
 //   RecheckInterval = 500us, `w` sleeps 1.2ms so that ticker runs interleave with the chunk runs.
 //   The interleaving is the runtime's, so this mode is TRACE VALIDATION: every chunk carries its
 //   op number, IsProcessed logs it (I<id>#<op>:<b>), the driver reads the sequence of routine
@@ -237,7 +243,7 @@ type c18Chunk struct {
 	id uint64
 }
 
-func c18RunTicker(header []string, ops [][]string) []string {
+func c18RunTickerOnce(header []string, ops [][]string) []string {
 	par, _ := strconv.Atoi(header[1])
 	nruns, _ := strconv.Atoi(header[2])
 	type ans struct {
@@ -271,6 +277,11 @@ func c18RunTicker(header []string, ops [][]string) []string {
 			run++
 			a := cur()
 			obs = append(obs, "D"+vu.B(a.done))
+			if a.done {
+				mu.Unlock()
+				time.Sleep(1200 * time.Microsecond)
+				mu.Lock()
+			}
 			return a.done
 		},
 		IsProcessed: func(id interface{}) bool {
@@ -313,16 +324,307 @@ func c18RunTicker(header []string, ops [][]string) []string {
 		case "w":
 			time.Sleep(1200 * time.Microsecond)
 			vu.Stat("ticker_op_w")
+		case "x":
+			d.Terminate()
+			mu.Lock()
+			obs = append(obs, "X")
+			mu.Unlock()
+			vu.Stat("ticker_op_x")
 		default:
 			panic("bad op " + op[0])
 		}
 	}
-	time.Sleep(600 * time.Microsecond)
+	time.Sleep(1500 * time.Microsecond)
 	d.Stop()
 	mu.Lock()
 	defer mu.Unlock()
 	vu.StatN("ticker_runs", run+1)
 	return append(obs, "E")
+}
+
+
+// c18AfterStop tells whether the log has a callback after the leecher was told to stop
+func c18AfterStop(obs []string) bool {
+	stopped := false
+	for _, t := range obs {
+		if t == "E" {
+			break
+		}
+		if stopped && t != "X" {
+			return true
+		}
+		if t == "D1" || t == "X" {
+			stopped = true
+		}
+	}
+	return false
+}
+
+func c18RunTicker(header []string, ops [][]string) []string {
+	var obs []string
+	for attempt := 0; attempt < 6; attempt++ {
+		obs = c18RunTickerOnce(header, ops)
+		if c18AfterStop(obs) {
+			vu.Stat("ticker_callback_after_stop")
+			break
+		}
+		stops := false
+		for _, t := range obs {
+			if t == "D1" || t == "X" {
+				stops = true
+			}
+		}
+		if !stops {
+			break
+		}
+	}
+	return obs
+}
+
+// ---------------------------------------------------------------------------------------------
+// Base leecher with its real loop:  L <hmask> <cmask> ; r <p> ; u <p> ; x ; xb ; w
+//   Start() is called with recheckInterval = 300us, so ticker Routines (under Mu) run concurrently
+//   with the API calls of the harness.  ShouldTerminateSession answers bit i of hmask at its
+//   i-th call, StartSession picks candidates[(cmask >> 2i) & 3 mod len] at its i-th call.
+//   xb / ub <p> = Terminate() / UnregisterPeer(p) issued while a ticker Routine is inside SelectSessionPeerCandidates (the
+//   callback blocks until Terminate() has had time to reach Mu): forces the interleaving
+//   "Routine holds Mu, Terminate arrives".
+//   Every callback is logged with the kind of goroutine that made it (t: = the loop goroutine,
+//   a: = an API call), API calls log >op before and <s<session>n<PeersNum> after.  The driver
+//   checks that the log is linearizable (callbacks of a Routine run are not interleaved with
+//   callbacks of an API call; register calls float between their markers), replays the model
+//   on the linearization and compares (trace validation).
+
+func c18Gid() string {
+	var buf [64]byte
+	n := runtime.Stack(buf[:], false)
+	f := strings.Fields(string(buf[:n]))
+	if len(f) >= 2 {
+		return f[1]
+	}
+	return "?"
+}
+
+func c18RunLoop(header []string, ops [][]string) []string {
+	hmask, _ := strconv.ParseUint(header[1], 10, 64)
+	cmask, _ := strconv.ParseUint(header[2], 10, 64)
+	var mu sync.Mutex
+	var obs []string
+	api := map[string]bool{c18Gid(): true}
+	var sess *string
+	hcalls, scalls := 0, 0
+	blockSelect := false
+	entered := make(chan struct{}, 1)
+	release := make(chan struct{})
+	tag := func() string {
+		if api[c18Gid()] {
+			return "a:"
+		}
+		return "t:"
+	}
+	logf := func(t string) { obs = append(obs, t) }
+	sessTok := func() string {
+		if sess == nil {
+			return "-"
+		}
+		return vu.U64(c18PeerNum(*sess))
+	}
+	var d *basestreamleecher.BaseLeecher
+	d = basestreamleecher.New(300*time.Microsecond, basestreamleecher.Callbacks{
+		SelectSessionPeerCandidates: func() []string {
+			nums := make([]uint64, 0, len(d.Peers))
+			for p := range d.Peers {
+				nums = append(nums, c18PeerNum(p))
+			}
+			sort.Slice(nums, func(i, j int) bool { return nums[i] < nums[j] })
+			res := make([]string, len(nums))
+			for i, n := range nums {
+				res[i] = c18PeerName(n)
+			}
+			mu.Lock()
+			tg := tag()
+			logf(tg + "C" + strconv.Itoa(len(res)))
+			wait := blockSelect && tg == "t:" && len(res) > 0
+			if wait {
+				blockSelect = false
+			}
+			mu.Unlock()
+			if wait {
+				entered <- struct{}{}
+				<-release
+			}
+			return res
+		},
+		ShouldTerminateSession: func() bool {
+			mu.Lock()
+			defer mu.Unlock()
+			b := hcalls < 64 && hmask&(1<<uint(hcalls)) != 0
+			hcalls++
+			logf(tag() + "H" + vu.B(b))
+			return b
+		},
+		StartSession: func(c []string) {
+			mu.Lock()
+			defer mu.Unlock()
+			ch := 0
+			if scalls < 32 {
+				ch = int((cmask >> uint(2*scalls)) & 3)
+			}
+			scalls++
+			p := c[ch%len(c)]
+			cs := make([]string, len(c))
+			for i, x := range c {
+				cs[i] = vu.U64(c18PeerNum(x))
+			}
+			logf(tag() + "S" + vu.U64(c18PeerNum(p)) + ":" + strings.Join(cs, ","))
+			sess = &p
+			vu.Stat("loop_start")
+		},
+		TerminateSession: func() {
+			mu.Lock()
+			defer mu.Unlock()
+			logf(tag() + "T" + sessTok())
+			sess = nil
+		},
+		OngoingSession: func() bool {
+			mu.Lock()
+			defer mu.Unlock()
+			logf(tag() + "O" + vu.B(sess != nil))
+			return sess != nil
+		},
+		OngoingSessionPeer: func() string {
+			mu.Lock()
+			defer mu.Unlock()
+			logf(tag() + "P")
+			if sess == nil {
+				return ""
+			}
+			return *sess
+		},
+	})
+	d.Start()
+	call := func(name string, f func()) {
+		mu.Lock()
+		logf(">" + name)
+		mu.Unlock()
+		func() {
+			defer func() {
+				if r := recover(); r != nil {
+					mu.Lock()
+					logf("PANIC")
+					mu.Unlock()
+				}
+			}()
+			f()
+		}()
+		n := d.PeersNum()
+		mu.Lock()
+		logf("<s" + sessTok() + "n" + strconv.Itoa(n))
+		mu.Unlock()
+	}
+	terminated := false
+	for _, op := range ops {
+		if len(op) == 0 {
+			continue
+		}
+		vu.Stat("loop_op_" + op[0])
+		switch op[0] {
+		case "r":
+			p, _ := strconv.ParseUint(op[1], 10, 64)
+			call("r"+op[1], func() { _ = d.RegisterPeer(c18PeerName(p)) })
+		case "u":
+			p, _ := strconv.ParseUint(op[1], 10, 64)
+			call("u"+op[1], func() { _ = d.UnregisterPeer(c18PeerName(p)) })
+		case "x":
+			if terminated {
+				continue // a second Terminate panics on the closed channel: covered by mode B
+			}
+			terminated = true
+			call("x", func() { d.Terminate() })
+		case "xb", "ub":
+			// the API call is issued while a ticker Routine is blocked inside
+			// SelectSessionPeerCandidates (holding Mu)
+			name, f := "x", func() { d.Terminate() }
+			if op[0] == "ub" {
+				p, _ := strconv.ParseUint(op[1], 10, 64)
+				name, f = "u"+op[1], func() { _ = d.UnregisterPeer(c18PeerName(p)) }
+			} else {
+				if terminated {
+					continue
+				}
+				terminated = true
+			}
+			mu.Lock()
+			blockSelect = true
+			mu.Unlock()
+			blocked := false
+			select {
+			case <-entered:
+				blocked = true
+			case <-time.After(4 * time.Millisecond):
+				mu.Lock()
+				blockSelect = false
+				mu.Unlock()
+				select { // the callback may have slipped in
+				case <-entered:
+					blocked = true
+				default:
+				}
+			}
+			if blocked {
+				vu.Stat("loop_call_during_select")
+			}
+			done := make(chan struct{})
+			go func() {
+				mu.Lock()
+				api[c18Gid()] = true
+				mu.Unlock()
+				call(name, f)
+				close(done)
+			}()
+			if blocked {
+				time.Sleep(400 * time.Microsecond) // let the call reach Mu (or, if it does not take Mu first, run ahead)
+				release <- struct{}{}
+			}
+			<-done
+		case "w":
+			time.Sleep(700 * time.Microsecond)
+		default:
+			panic("bad op " + op[0])
+		}
+	}
+	time.Sleep(400 * time.Microsecond)
+	if !terminated {
+		call("x", func() { d.Terminate() }) // every history ends with Terminate()
+	}
+	d.Wg.Wait()
+	mu.Lock()
+	defer mu.Unlock()
+	return append(obs, "E")
+}
+
+func c18GenLoop(r *rand.Rand, emit func(...string)) {
+	in := []string{"L", strconv.FormatUint(r.Uint64()&r.Uint64(), 10), strconv.FormatUint(r.Uint64(), 10)}
+	npeers := 1 + r.Intn(3)
+	nops := 2 + r.Intn(9)
+	for i := 0; i < nops; i++ {
+		in = append(in, ";")
+		switch x := r.Intn(20); {
+		case x < 6:
+			in = append(in, "r", strconv.Itoa(1+r.Intn(npeers)))
+		case x < 10:
+			in = append(in, "u", strconv.Itoa(1+r.Intn(npeers)))
+		case x < 17:
+			in = append(in, "w")
+		case x < 18:
+			in = append(in, "x")
+		case x < 19:
+			in = append(in, "ub", strconv.Itoa(1+r.Intn(npeers)))
+		default:
+			in = append(in, "xb")
+		}
+	}
+	emit(in...)
 }
 
 func c18Split(input []string) (header []string, ops [][]string) {
@@ -360,6 +662,8 @@ func c18Run(input []string) []string {
 		return c18RunPeer(header, ops)
 	case "T":
 		return c18RunTicker(header, ops)
+	case "L":
+		return c18RunLoop(header, ops)
 	}
 	panic("bad header")
 }
@@ -432,9 +736,9 @@ func c18GenTicker(r *rand.Rand, emit func(...string)) {
 	par := 1 + r.Intn(4)
 	nruns := 64
 	in := []string{"T", strconv.Itoa(par), strconv.Itoa(nruns)}
-	done := 0 // the application's Done() is monotone: once done it stays done
 	for i := 0; i < nruns; i++ {
-		if r.Intn(25) == 0 {
+		done := 0 // Done() need not be monotone
+		if r.Intn(20) == 0 {
 			done = 1
 		}
 		susp := 0
@@ -453,10 +757,17 @@ func c18GenTicker(r *rand.Rand, emit func(...string)) {
 		in = append(in, strconv.Itoa(done), strconv.Itoa(susp), strconv.FormatUint(mask, 10))
 	}
 	nc := 1 + r.Intn(2*par)
+	xat := -1
+	if r.Intn(5) == 0 {
+		xat = r.Intn(nc)
+	}
 	for i := 0; i < nc; i++ {
 		in = append(in, ";", "c", strconv.Itoa(r.Intn(8)))
 		if r.Intn(2) == 0 {
 			in = append(in, ";", "w")
+		}
+		if i == xat {
+			in = append(in, ";", "x", ";", "w")
 		}
 	}
 	emit(in...)
@@ -465,6 +776,8 @@ func c18GenTicker(r *rand.Rand, emit func(...string)) {
 func c18Gen(r *rand.Rand, n int, tier string, emit func(...string)) {
 	// the known failing history of the pinned tree first (register, tick, unregister)
 	emit("B", ";", "r", "1", ";", "t", "0", "0", ";", "u", "1", "0")
+	// ... and of the peer leecher without the d.done guard: done at the first run, not done later
+	emit("T", "1", "4", "1", "0", "0", "0", "0", "0", "0", "0", "0", "0", "0", "0", ";", "c", "1", ";", "w", ";", "w")
 	for i := 0; i < n; i++ {
 		if i%2 == 0 {
 			c18GenBase(r, emit)
@@ -478,6 +791,13 @@ func c18Gen(r *rand.Rand, n int, tier string, emit func(...string)) {
 	}
 	for i := 0; i < nt; i++ {
 		c18GenTicker(r, emit)
+	}
+	// the forced interleaving "a ticker Routine holds Mu inside SelectSessionPeerCandidates,
+	// Terminate() arrives" first, then random loop histories
+	emit("L", "0", "0", ";", "r", "1", ";", "u", "1", ";", "r", "1", ";", "xb", ";", "w")
+	emit("L", "0", "0", ";", "r", "1", ";", "r", "2", ";", "w", ";", "u", "1", ";", "ub", "2", ";", "w")
+	for i := 0; i < nt; i++ {
+		c18GenLoop(r, emit)
 	}
 	if tier == "thorough" {
 		// exhaustive small scope, base leecher: every history of length <= 5 over two peers
